@@ -4,6 +4,7 @@ package main
 
 import (
 	"fmt"
+	"go/token"
 	"sort"
 	"strings"
 
@@ -111,7 +112,7 @@ func init() {
 		Assumptions: []string{"interface invokes resolve to the repo's implementations (user-supplied Metastore/KMS/AEAD are opaque)", "log.Debugf and metrics calls make no metastore/KMS calls"},
 		Tech:        "static analysis: closure-binding-sensitive call-graph reachability (who-may-call), guarded-by-condition on SSA",
 		NeedU1:      true,
-		Rules:       []func(*Ctx){ruleC20HitIsPure, ruleC20ExternalOnlyViaCache, ruleC20FactoryWideSKCache, ruleC20ReloadOnce, ruleC20DisabledMeansNever, ruleC05StaleMeansReload, ruleC05ReloadRefreshes, ruleC05FreshnessWriters, ruleC15SetStoresValue, ruleC04LatestMapMonotonic, ruleC04LatestRevalidated},
+		Rules:       []func(*Ctx){ruleC20HitIsPure, ruleC20ExternalOnlyViaCache, ruleC20FactoryWideSKCache, ruleC20ReloadOnce, ruleC20DisabledMeansNever, ruleC05StaleMeansReload, ruleC05ReloadRefreshes, ruleC05FreshnessWriters, ruleC15SetStoresValue, ruleC04LatestMapMonotonic, ruleC04LatestRevalidated, ruleC20CacheSizedByOwnPolicy},
 	})
 }
 
@@ -353,4 +354,72 @@ func ruleC20ReloadOnce(c *Ctx) {
 		}
 	})
 	c.check(n == 1 && entry, shortName(f)+"/loader-calls", u.pos(f.Pos()), "one unconditional loader call", fmt.Sprintf("load() calls the loader %d times / conditionally", n))
+}
+
+// ruleC20CacheSizedByOwnPolicy: each key cache is built from its own policy fields: wherever newKeyCache reads a
+// *KeyCacheMaxSize / *KeyCacheEvictionPolicy field of the policy, the cache type it is building (the switch on t) is the one
+// that field belongs to. A cache sized or evicted by the other cache's setting thrashes although the working set fits the
+// capacity the user configured for it ("a working set that fits the cache performs no metastore and no KMS calls").
+func ruleC20CacheSizedByOwnPolicy(c *Ctx) {
+	u := c.U1
+	c.rule("C20.cache-sized-by-its-own-policy", "newKeyCache reads SystemKeyCacheMaxSize / SystemKeyCacheEvictionPolicy only where t == CacheTypeSystemKeys and IntermediateKeyCacheMaxSize / IntermediateKeyCacheEvictionPolicy only where t == CacheTypeIntermediateKeys", 4)
+	n := 0
+	for _, f := range u.RepoFuncs {
+		if f.Pkg == nil || f.Pkg.Pkg.Path() != pkgApp || f.Blocks == nil {
+			continue
+		}
+		tIdx := -1
+		for k, p := range f.Params {
+			if strings.HasSuffix(p.Type().String(), ".cacheKeyType") {
+				tIdx = k
+			}
+		}
+		if tIdx < 0 {
+			continue
+		}
+		f, tIdx := f, tIdx
+		c.FuncsAnalysed[shortName(f)] = true
+		allInstrs(f, func(i ssa.Instruction) {
+			ld, ok := i.(*ssa.UnOp)
+			if !ok || ld.Op != token.MUL {
+				return
+			}
+			fa, isF := ld.X.(*ssa.FieldAddr)
+			if !isF {
+				return
+			}
+			fld := fieldName(fa.X.Type(), fa.Field)
+			want := int64(-1)
+			switch {
+			case strings.HasPrefix(fld, "SystemKeyCache"):
+				want = 0
+			case strings.HasPrefix(fld, "IntermediateKeyCache"):
+				want = 1
+			default:
+				return
+			}
+			n++
+			ok2 := false
+			for _, fct := range factsAt(i.Block()) {
+				b, isB := fct.V.(*ssa.BinOp)
+				if !isB || b.Op != token.EQL || !fct.True {
+					continue
+				}
+				if !isParamNamed(b.X, f, tIdx) && !isParamNamed(b.Y, f, tIdx) {
+					continue
+				}
+				for _, o := range []ssa.Value{b.X, b.Y} {
+					if k, isC := constOf(o); isC {
+						if v, _ := constantInt64(k); v == want {
+							ok2 = true
+						}
+					}
+				}
+			}
+			c.check(ok2, f.Name()+"/"+fld, u.ipos(i), "read only while building the cache type it belongs to", "policy."+fld+" is read while building the other key cache: that cache's capacity / eviction policy no longer follows its own configuration, so a working set that fits the configured size is evicted and reloaded from the metastore (and the KMS) in steady state")
+		})
+	}
+	if n < 4 {
+		c.bad("newKeyCache/policy-reads", "", fmt.Sprintf("expected at least 4 reads of per-cache policy fields, found %d", n))
+	}
 }
